@@ -41,6 +41,11 @@ Qed.
 Theorem C12_decimal_injective : forall a b, 0 <= a -> 0 <= b -> dec a = dec b -> a = b.
 Proof. exact dec_nonneg_inj. Qed.
 
+(* ... also through the padding of the offset column: two rows with different offsets never show the same offset column, so with
+   C12_offsets_once no instruction of a decoded stream is listed under another's offset *)
+Theorem C12_offset_column_injective : forall a b, 0 <= a -> 0 <= b -> rjust 4 (dec a) = rjust 4 (dec b) -> a = b.
+Proof. exact offset_column_inj. Qed.
+
 Definition ex_instrs : list linstr :=
   [ mk_linstr 0 127 (s2z "SET_LINENO") (Some 7) [] (Some 7) false None 3 true;
     mk_linstr 3 100 (s2z "LOAD_CONST") (Some 0) (s2z "None") None true (Some 1) 3 true;
